@@ -82,11 +82,79 @@ theorem isDesc_eq_anc {t : Tree} (wf : t.WF) {s : St} (hl : LiveInv t s) {x b : 
 
 /-! ### importing a scheduled change -/
 
+theorem importNode_mk (t : Tree) (isD : IsD) (pc c : Ann) (kids : List Node) :
+    importNode t isD pc (.mk c kids) =
+      if pc.blk = c.blk then .error .dup
+      else match isD c.blk pc.blk with
+        | none => .error .anc
+        | some false => .ok none
+        | some true =>
+          if num t pc.blk ≤ num t c.blk then .ok none
+          else match importKids t isD pc kids with
+            | .error e => .error e
+            | .ok (some kids') => .ok (some (.mk c kids'))
+            | .ok none => .ok (some (.mk c (kids ++ [.mk pc []]))) := by
+  rw [importNode]; rfl
+
+theorem importKids_nil (t : Tree) (isD : IsD) (pc : Ann) : importKids t isD pc [] = .ok none := by
+  rw [importKids]
+
+theorem importKids_cons (t : Tree) (isD : IsD) (pc : Ann) (n : Node) (rest : List Node) :
+    importKids t isD pc (n :: rest) =
+      match importNode t isD pc n with
+      | .error e => .error e
+      | .ok (some n') => .ok (some (n' :: rest))
+      | .ok none =>
+        match importKids t isD pc rest with
+        | .error e => .error e
+        | .ok (some rest') => .ok (some (n :: rest'))
+        | .ok none => .ok none := by
+  rw [importKids]; rfl
+
+theorem specImportNode_mk (t : Tree) (pc c : Ann) (kids : List Node) :
+    specImportNode t pc (.mk c kids) =
+      if c.blk ≠ pc.blk ∧ anc t c.blk pc.blk then
+        match specImportKids t pc kids with
+        | some kids' => some (.mk c kids')
+        | none => some (.mk c (kids ++ [.mk pc []]))
+      else none := by
+  rw [specImportNode]; rfl
+
+theorem specImportKids_nil (t : Tree) (pc : Ann) : specImportKids t pc [] = none := by
+  rw [specImportKids]
+
+theorem specImportKids_cons (t : Tree) (pc : Ann) (n : Node) (rest : List Node) :
+    specImportKids t pc (n :: rest) =
+      match specImportNode t pc n with
+      | some n' => some (n' :: rest)
+      | none =>
+        match specImportKids t pc rest with
+        | some rest' => some (n :: rest')
+        | none => none := by
+  rw [specImportKids]; rfl
+
+/-- the forest form of `specImportKids` -/
+theorem specImportKids_mk (t : Tree) (pc c : Ann) (kids rest : List Node) :
+    specImportKids t pc (.mk c kids :: rest) =
+      if c.blk ≠ pc.blk ∧ anc t c.blk pc.blk then
+        match specImportKids t pc kids with
+        | some kids' => some (.mk c kids' :: rest)
+        | none => some (.mk c (kids ++ [.mk pc []]) :: rest)
+      else
+        match specImportKids t pc rest with
+        | some rest' => some (.mk c kids :: rest')
+        | none => none := by
+  rw [specImportKids_cons, specImportNode_mk]
+  by_cases h : c.blk ≠ pc.blk ∧ anc t c.blk pc.blk = true
+  · rw [if_pos h, if_pos h]
+    cases specImportKids t pc kids <;> rfl
+  · rw [if_neg h, if_neg h]
+
 /-- `importKids` on a fresh tip is the fork-tree import -/
 theorem importKids_eq {t : Tree} (wf : t.WF) {s : St} (hl : LiveInv t s) (pc : Ann) (hb : inBt t s pc.blk = true) :
     ∀ (l : List Node), (∀ x ∈ blocksF l, (x ∈ s.live ∨ cmp t s.root x = false) ∧ x ≠ pc.blk) →
       importKids t (isDesc t s) pc l = .ok (specImportKids t pc l)
-  | [], _ => by rw [importKids, specImportKids]
+  | [], _ => by rw [importKids_nil, specImportKids_nil]
   | .mk c kids :: rest, h => by
     have hc := h c.blk (by simp [blocksF_cons])
     have hkids : ∀ x ∈ blocksF kids, (x ∈ s.live ∨ cmp t s.root x = false) ∧ x ≠ pc.blk :=
@@ -96,7 +164,7 @@ theorem importKids_eq {t : Tree} (wf : t.WF) {s : St} (hl : LiveInv t s) (pc : A
     have ihk := importKids_eq wf hl pc hb kids hkids
     have ihr := importKids_eq wf hl pc hb rest hrest
     have hne : ¬ pc.blk = c.blk := fun e => hc.2 e.symm
-    rw [importKids, specImportKids]
+    rw [importKids_cons, importNode_mk, specImportKids_mk]
     simp only [hne, if_false, isDesc_eq_anc wf hl hc.1 hb, ihk, ihr]
     cases ha : anc t c.blk pc.blk with
     | false =>
@@ -118,9 +186,9 @@ theorem schedImport_eq {t : Tree} (wf : t.WF) {s : St} (hl : LiveInv t s) (pc : 
 /-- the blocks of the tree after an import: the old ones and the new one -/
 theorem blocksF_specImportKids (t : Tree) (pc : Ann) : ∀ (l l' : List Node), specImportKids t pc l = some l' →
     ∀ x, x ∈ blocksF l' ↔ x = pc.blk ∨ x ∈ blocksF l
-  | [], _, h => by simp [specImportKids] at h
+  | [], _, h => by simp [specImportKids_nil] at h
   | .mk c kids :: rest, l', h => by
-    rw [specImportKids] at h
+    rw [specImportKids_mk] at h
     intro x
     split at h
     · cases hk : specImportKids t pc kids with
@@ -164,12 +232,12 @@ theorem specImportKids_filter' {t : Tree} (pc : Ann) (keep : Node → Bool)
     (hk : ∀ (c : Ann) (k1 k2 : List Node), keep (.mk c k1) = keep (.mk c k2)) :
     ∀ (l : List Node), (∀ r ∈ l, keep r = false → anc t r.ann.blk pc.blk = false) →
       specImportKids t pc (l.filter keep) = (specImportKids t pc l).map (·.filter keep)
-  | [], _ => by simp [specImportKids]
+  | [], _ => by simp [specImportKids_nil]
   | .mk c kids :: rest, hdead => by
     have ih := specImportKids_filter' pc keep hk rest (fun r hr => hdead r (by simp [hr]))
     by_cases hkeep : keep (.mk c kids) = true
     · simp only [List.filter, hkeep]
-      rw [specImportKids, specImportKids]
+      rw [specImportKids_mk, specImportKids_mk]
       split
       · cases specImportKids t pc kids with
         | some kids' =>
@@ -182,7 +250,7 @@ theorem specImportKids_filter' {t : Tree} (pc : Ann) (keep : Node → Bool)
         cases specImportKids t pc rest <;> simp [List.filter, hkeep]
     · simp only [Bool.not_eq_true] at hkeep
       simp only [List.filter, hkeep]
-      rw [ih, specImportKids]
+      rw [ih, specImportKids_mk]
       have := hdead (.mk c kids) (by simp) hkeep
       simp only [Node.ann] at this
       simp only [this, Bool.false_eq_true, and_false, if_false]
